@@ -1,1 +1,69 @@
-fn main() { println!("{:?}", nederlang::verif::opcode_table().len()); }
+//! nlh: the conformance harness between the TLA+ specifications in /verif/spec and the
+//! real interpreter in /repo (built with the `verif` feature).
+mod ast;
+mod encfam;
+mod gcfam;
+mod gen;
+mod lexfam;
+mod pool;
+mod proj;
+mod run;
+mod semfam;
+mod session;
+
+use std::collections::HashMap;
+
+pub struct Args {
+    pub cmd: String,
+    pub kv: HashMap<String, String>,
+}
+
+impl Args {
+    pub fn get(&self, k: &str, d: &str) -> String {
+        self.kv.get(k).cloned().unwrap_or_else(|| d.to_string())
+    }
+    pub fn num(&self, k: &str, d: u64) -> u64 {
+        self.kv.get(k).and_then(|v| v.parse().ok()).unwrap_or(d)
+    }
+}
+
+fn main() {
+    let argv: Vec<String> = std::env::args().collect();
+    if argv.len() < 2 {
+        eprintln!("usage: nlh <command> [--key value]...");
+        std::process::exit(2);
+    }
+    let mut kv = HashMap::new();
+    let mut i = 2;
+    while i + 1 < argv.len() {
+        if let Some(k) = argv[i].strip_prefix("--") {
+            kv.insert(k.to_string(), argv[i + 1].clone());
+        }
+        i += 2;
+    }
+    let args = Args {
+        cmd: argv[1].clone(),
+        kv,
+    };
+    match args.cmd.as_str() {
+        "worker" => pool::worker_main(),
+        "optable" => {
+            let t = nederlang::verif::opcode_table();
+            let v: Vec<serde_json::Value> = t
+                .iter()
+                .map(|(b, n, w)| serde_json::json!({"byte":b,"name":n,"widths":w}))
+                .collect();
+            println!(
+                "{}",
+                serde_json::json!({"ops":v,"builtins":nederlang::verif::builtin_count()})
+            );
+        }
+        "gen-sem" => semfam::gen_sem(&args),
+        "gen-corpus" => semfam::gen_corpus(&args),
+        "show" => semfam::show(&args),
+        other => {
+            eprintln!("unknown command {other}");
+            std::process::exit(2);
+        }
+    }
+}
